@@ -164,6 +164,7 @@ func (r *Results) Next() bool {
 			// never be mistaken for a complete one, so re-check the caller's
 			// context before reporting completion.
 			if r.callerCtx.Err() != nil {
+				verifEvent("res.next.closed.ctx", r.verifID, 0)
 				return r.terminate()
 			}
 			// Clean completion: all workers finished and every buffered row
